@@ -45,8 +45,14 @@ def rmTag (n : Node) (pos : Nat) : String :=
     (if (keyAt n 0).take P = (keyAt n 1).take P then " rm:next-same-prefix" else "")
   else if pos + 1 = n.pnum then "rm:tail" else "rm:middle"
 
+/-- how full the node is when the operation starts -/
+def sizeTag (d : Db) : String :=
+  match d with
+  | none => "size:0"
+  | some n => if n.pnum = 1 then "size:1" else if n.pnum ≤ 8 then "size:2-8" else if n.pnum < Gen.KVBLK_IDXNUM then "size:9-31" else "size:32"
+
 def putKv (st : St) (k : Bytes) (c : Nat) (v : Bytes) : St × String :=
-  let tag := if st.trace then " " ++ putTag st k c else ""
+  let tag := if st.trace then " " ++ putTag st k c ++ " " ++ sizeTag st.db else ""
   match put st.compound st.db k c v with
   | .ok d => ({ st with db := d }, "ok" ++ tag)
   | .split => (st, "SPLIT" ++ tag)
@@ -62,7 +68,8 @@ def cmpRec (s : Sblk) (n : Node) : Option String :=
   else none
 
 def cmpImage (st : St) (path : String) : IO String := do
-  let m := imgOf (← IO.FS.readBinFile path)
+  let bytes ← try IO.FS.readBinFile path catch _ => return "image MISSING"      -- the implementation died before it wrote the copy
+  let m := imgOf bytes
   let full := st.nimg % 8 = 0 || !st.isOpen
   let res := if full then audit m else (parse m).map fun f => (f, f.dbs.flatMap checkDb)
   match res with
